@@ -320,8 +320,13 @@ package thrift
 //@   ensures mono: old(p.Read) <= p.Read
 //@   modifies p.Read
 
+// a complete envelope: strict header, then a valid field header, then (unless the field is STOP) at least the struct's own STOP byte
+//@ pure env_ok(b []byte, o int) bool = msg_ok(b, o) && o + 12 + int(strsz(b, o+4)) < len(b) && tvalid(Type(b[o+12+int(strsz(b, o+4))])) && \
+//@      (b[o+12+int(strsz(b, o+4))] == 0 || o + 15 + int(strsz(b, o+4)) <= len(b) - 1)
+
 //@ spec (BinaryProtocol).UnwrapBody
 //@   props C19 C06
+//@   ensures complete: env_ok(p.Buf, p.Read) ==> r5 == nil
 //@   ensures bad: !msg_ok(p.Buf, p.Read) ==> r5 != nil
 //@   ensures hdr: r5 == nil ==> r1 == TMessageType(int32(be32(p.Buf, p.Read)) & 0xff) && len(r0) == int(strsz(p.Buf, p.Read+4)) && \
 //@       r2 == int32(be32(p.Buf, p.Read+8+len(r0)))
@@ -332,6 +337,7 @@ package thrift
 
 //@ spec UnwrapBinaryMessage
 //@   props C19 C06
+//@   ensures complete: env_ok(buf, 0) ==> err == nil
 //@   ensures bad: !msg_ok(buf, 0) ==> err != nil
 //@   ensures hdr: err == nil ==> callType == TMessageType(int32(be32(buf, 0)) & 0xff) && len(name) == int(strsz(buf, 4)) && seqID == int32(be32(buf, 8+len(name)))
 //@   ensures name: err == nil ==> forall i :: 0 <= i && i < len(name) ==> name[i] == buf[8+i]
